@@ -270,6 +270,44 @@ let msq_inst (c : case) : MsqDefs.state inst =
     pctag = simple_pctag (fun st -> st.th);
     nm }
 
+(* ---------------------------------------------------------------- thread_block_list (C17) *)
+let tbl_inst (c : case) : TblDefs.state inst =
+  let open TblDefs in
+  let nm = {
+    named = (function 0 -> "head" | _ -> "?");
+    opname = (function 0 -> "acq" | 1 -> "rel" | 2 -> "acqi" | 3 -> "act" | _ -> "?");
+    resname = (fun r -> match r with [e] -> string_of_n e | _ -> "?");
+    note = no_note;
+  } in
+  { init = TblDefs.init;
+    idle = (fun st t -> match st.th (nat_of_int t) with Idle -> true | _ -> false);
+    start = (fun st t (name, _) ->
+      let o = match name with "acq" -> OAcquire | "rel" -> ORelease | "acqi" -> OAcquireInactive | _ -> OActivate in
+      match TblDefs.step st (Start (nat_of_int t, o)) with Some (s', _) -> Some s' | None -> None);
+    step = (fun st t _ -> TblDefs.step st (Step (nat_of_int t)));
+    pctag = simple_pctag (fun st -> st.th);
+    nm }
+
+(* ---------------------------------------------------------------- harris_michael_list_based_set (GC reclaimer) *)
+let hml_inst (c : case) : HmlDefs.state inst =
+  let open HmlDefs in
+  let nm = {
+    named = (fun _ -> "?");
+    opname = (function 0 -> "ins" | 1 -> "del" | 2 -> "has" | _ -> "?");
+    resname = (fun r -> match List.map int_of_n r with
+      | [0; 1] -> "new" | [0; 0] -> "old" | [1; 1] -> "ok" | [1; 0] -> "no" | [2; 1] -> "yes" | [2; 0] -> "no" | _ -> "?");
+    note = (fun code args -> match code, args with 120, [h] -> Some ("RETIRE h" ^ string_of_n h ^ "+0") | _ -> None);
+  } in
+  { init = HmlDefs.init;
+    idle = (fun st t -> match st.th (nat_of_int t) with Idle -> true | _ -> false);
+    start = (fun st t (name, args) ->
+      let k = match args with v :: _ -> n_of_string v | [] -> n_of_int 0 in
+      let o = match name with "ins" -> OIns k | "del" -> ODel k | _ -> OHas k in
+      match HmlDefs.step st (Start (nat_of_int t, o)) with Some (s', _) -> Some s' | None -> None);
+    step = (fun st t _ -> HmlDefs.step st (Step (nat_of_int t)));
+    pctag = simple_pctag (fun st -> st.th);
+    nm }
+
 let () =
   let model = Sys.argv.(1) and cmd = Sys.argv.(2) and path = Sys.argv.(3) in
   let c = parse_case path in
@@ -297,4 +335,6 @@ let () =
   | "lr" -> go (lr_inst c)
   | "vyu" -> go (vyu_inst c)
   | "msq" -> go (msq_inst c)
+  | "tbl" -> go (tbl_inst c)
+  | "hml" -> go (hml_inst c)
   | _ -> prerr_endline ("unknown model " ^ model); exit 2
